@@ -7,6 +7,7 @@ import (
 	"math/rand"
 	"reflect"
 	"strings"
+	"time"
 
 	"github.com/antonmedv/expr"
 	"github.com/antonmedv/expr/ast"
@@ -56,6 +57,7 @@ func runC05() {
 		ex = ex[:300]
 	}
 	srcs = append(srcs, ex...)
+	srcs = append(srcs, nestedSources()...)
 	for i := 0; i < nRandom; i++ {
 		t := []gtype{tBool, tInt, tStr, tArrInt, tArrAny, tAny}[rng.Intn(6)]
 		srcs = append(srcs, g.expr(t, 2+rng.Intn(3)))
@@ -71,9 +73,11 @@ func runC05() {
 		for ei, e := range envs {
 			callLog = nil
 			v := &vm.VM{}
-			out, rerr := v.Run(prog, e)
-			rep.Evaluations++
+			var out interface{}
+			var rerr error
 			in := map[string]interface{}{"src": clip(src), "mode": m.Name, "env": ei}
+			guarded(30*time.Second, func() interface{} { return in }, func() { out, rerr = v.Run(prog, e) })
+			rep.Evaluations++
 			if isMachineErr(rerr) {
 				rep.fail(Failure{Key: "C05-machine-failure", What: "a compiled program failed for a machine reason (stack underflow, bad jump, unknown opcode, missing scope)",
 					Input: in, Want: "a result or a semantic failure", Got: rerr.Error()})
@@ -182,6 +186,9 @@ func runC05() {
 	}
 	rep.Samples = append(rep.Samples, "len(false ? [1, ... 21845 times ...] : [2])")
 	rep.writeShards("cases_c05", coreHeader(envs), "ccase", "core_mismatches fe", cases)
+	// the same cases a second time against the BYTE-level model of the compiler (BC/Assemble.v): bytes,
+	// constant pool in the order of makeConstant calls, locations
+	rep.writeShards("cases_c05b", strings.Replace(coreHeader(envs), "X.Corr.CorrCore.", "X.Corr.CorrCore X.Corr.CorrC05b.", 1), "ccase", "c05b_mismatches", cases)
 	rep.write()
 }
 
@@ -225,8 +232,28 @@ func runC15() {
 		nRandom, nEnvs = 5000, 8
 	}
 	envs := standardEnvs(rng, nEnvs)
+	{
+		// values that coincide only after narrowing / sign change: a comparison specialised by static types must
+		// answer what the generic comparison answers
+		e := baseEnv()
+		e.I, e.I8, e.I16, e.I32, e.I64 = 300, 44, 300, 0, 1<<32
+		e.U, e.U8, e.U16, e.U32, e.U64 = 200, 200, 65535+0, 0, 1<<32
+		envs = append(envs, e)
+		e2 := baseEnv()
+		e2.I, e2.I8, e2.I16, e2.I32, e2.I64 = -56, -56, -1, -1, -1
+		e2.U, e2.U8, e2.U16, e2.U32, e2.U64 = 1<<64-1, 200, 65535, 1<<32-1, 1<<64-1
+		envs = append(envs, e2)
+	}
 	g := &egen{rng: rng, wrong: 20, hist: rep.Histogram}
 	var srcs []string
+	ints := []string{"I", "I8", "I16", "I32", "I64", "U", "U8", "U16", "U32", "U64", "1", "300", "F64", "Any"}
+	for _, a := range ints {
+		for _, b := range ints {
+			if a != b {
+				srcs = append(srcs, a+" == "+b, a+" != "+b)
+			}
+		}
+	}
 	ex := exhaustiveExprs(1)
 	rng.Shuffle(len(ex), func(i, j int) { ex[i], ex[j] = ex[j], ex[i] })
 	if *tier != "thorough" && len(ex) > 400 {
@@ -369,9 +396,21 @@ func runC15() {
 		}{
 			{"Eval", func(src string) (interface{}, error) { return expr.Eval(src, mk()) }},
 			{"Compile", func(src string) (interface{}, error) { o, e, _ := compileRun(src, mk()); return o, e }},
-			{"Compile+Env(*struct)", func(src string) (interface{}, error) { e0 := mk(); o, e, _ := compileRun(src, e0, expr.Env(e0)); return o, e }},
-			{"Compile+Env(struct)", func(src string) (interface{}, error) { e0 := mk(); o, e, _ := compileRun(src, *e0, expr.Env(*e0)); return o, e }},
-			{"Compile+Env(map)", func(src string) (interface{}, error) { m := asMap(mk()); o, e, _ := compileRun(src, m, expr.Env(m)); return o, e }},
+			{"Compile+Env(*struct)", func(src string) (interface{}, error) {
+				e0 := mk()
+				o, e, _ := compileRun(src, e0, expr.Env(e0))
+				return o, e
+			}},
+			{"Compile+Env(struct)", func(src string) (interface{}, error) {
+				e0 := mk()
+				o, e, _ := compileRun(src, *e0, expr.Env(*e0))
+				return o, e
+			}},
+			{"Compile+Env(map)", func(src string) (interface{}, error) {
+				m := asMap(mk())
+				o, e, _ := compileRun(src, m, expr.Env(m))
+				return o, e
+			}},
 			{"Compile+Env(*struct)+Optimize(false)", func(src string) (interface{}, error) {
 				e0 := mk()
 				o, e, _ := compileRun(src, e0, expr.Env(e0), expr.Optimize(false))
